@@ -600,6 +600,22 @@ theorem spec_of_hyps_partial (h : Heap) (s : St) (hd : internalize h = .done s) 
   obtain ⟨⟨⟨⟨⟨⟨⟨⟨⟨a1, a2⟩, a3⟩, a4⟩, a5⟩, a6⟩, a7⟩, a8⟩, a9⟩, a10⟩ := hh
   exact spec_holds_partial h s hd a1 a2 a3 a4 a5 a6 a7 a8 a9 a10
 
+/-- the arrays of texts keep the sizes of the heap's tables: `specB` speaks of every text of the final state -/
+theorem run_invSize (h : Heap) (s : St) (hd : internalize h = .done s) : InvSize h s :=
+  Reach.invariant (InvSize h) (invSize_step h) (internalize_reach h s hd) (invSize_init h)
+
+/-- where the property holds after the first call, every text of the final state is internal -/
+theorem spec_implies_all_internal (h : Heap) (s : St) (hd : internalize h = .done s) (hs : specB h s = true) :
+    allIntB s = true := allIntB_of_spec h s (run_invSize h s hd) hs
+
+/-- **Where the property holds after the first call, a second call changes nothing** (adds no component, replaces none,
+renames nothing; `second_call_changes_nothing` with its hypothesis discharged by the spec). -/
+theorem second_call_after_spec (h : Heap) (s : St) (hd : internalize h = .done s) (hs : specB h s = true)
+    (n : Nat) (s2 : St) (hr : internalizeM h n (rerunSt h s) = .ok ((), s2)) :
+    s2.comps = s.comps ∧ s2.hasComp = s.hasComp ∧ (∀ c : Nat, s2.refs[c]! = s.refs[c]! ∨ s2.refs[c]! = []) ∧
+    (∀ p : Nat, s2.pirefs[p]! = s.pirefs[p]! ∨ s2.pirefs[p]! = []) :=
+  second_call_changes_nothing h s (spec_implies_all_internal h s hd hs) n s2 hr
+
 /-- the exclusion classes are complete for the model: a finished run on which the spec fails is in one of them -/
 theorem spec_fails_only_in_a_class (h : Heap) (s : St) (hd : internalize h = .done s) (hf : specB h s = false) :
     hypsB h s = false := by
@@ -733,9 +749,20 @@ example : doneB hPathItemChain (fun s => allIntB s &&
     (match internalizeM hPathItemChain (budget hPathItemChain) (rerunSt hPathItemChain s) with
      | .ok (_, s2) => s2.refs.toList == s.refs.toList && s2.pirefs.toList == s.pirefs.toList
      | .error _ => false)) = true := by decide +kernel
-/-- the hypothesis of `second_call_changes_nothing` is needed: where the first call leaves an external text (F-C16-7, the
-example of a parameter), `allIntB` fails -/
-theorem witness_second_call_hypothesis : doneB hParamExample (fun s => !allIntB s) = true := by decide +kernel
+/-- the hypothesis of `second_call_changes_nothing` is needed: started from a state with an external text (here: the
+loaded document itself), the call adds components and renames -/
+theorem witness_call_on_external_texts_changes :
+    allIntB (initSt hSharedHeader) = false ∧
+    doneB hSharedHeader (fun s => s.comps.length != (initSt hSharedHeader).comps.length &&
+      s.refs[1]! != (initSt hSharedHeader).refs[1]! && !(s.refs[1]!).isEmpty) = true := by decide +kernel
+/-- and it is not implied by the first call having finished: where that call leaves an external text (F-C16-7, the example
+of a parameter), `allIntB` fails on its final state (and `specB` with it) -/
+theorem witness_second_call_hypothesis : doneB hParamExample (fun s => !allIntB s && !specB hParamExample s) = true := by
+  decide +kernel
+/-- non-vacuity of `second_call_after_spec`: the spec holds after the first call and the second call finishes -/
+example : doneB hSharedHeader (fun s => specB hSharedHeader s &&
+    (match internalizeM hSharedHeader (budget hSharedHeader) (rerunSt hSharedHeader s) with
+     | .ok _ => true | .error _ => false)) = true := by decide +kernel
 /-- non-vacuity of `internal_document_only_inlined`: a document whose only reference is internal -/
 example : allIntB (initSt hEncHeaderInternal) = true ∧ doneB hEncHeaderInternal (fun _ => true) = true := by decide +kernel
 
